@@ -234,7 +234,7 @@ class _MetaAbstractArray(type):
         arg_memo_bak = arg_memo.copy()
         try:
             check = cls._check_shape(obj, single_memo, variadic_memo, arg_memo)
-        except Exception:
+        except BaseException:
             set_shape_memo(
                 single_memo_bak, variadic_memo_bak, pytree_memo_bak, arg_memo_bak
             )
